@@ -98,6 +98,12 @@ func writeEvents(c *drv.Ctx, evs []event) {
 
 func serve(b *built, q reqIn) {
 	rec := httptest.NewRecorder()
+	defer func() {
+		// a panic of the code under test is an observation (no stage of the model is called "panic")
+		if e := recover(); e != nil {
+			emit("panic", "panic")
+		}
+	}()
 	b.handler.ServeHTTP(rec, q.httpRequest())
 	emit("done", strconv.Itoa(rec.Code), short(rec.Header().Get("Content-Type")), rec.Body.String())
 }
@@ -247,13 +253,13 @@ func (l *lcg) Intn(n int) int {
 }
 
 func randomValid(r *lcg, k int) reqIn {
-	ops := []string{"opA", "opB", "opC"}
+	ops := []string{"opA", "opB", "opC", "opD"}
 	med := []string{"json", "text"}
-	q := reqIn{Op: ops[r.Intn(3)], ID: fmt.Sprintf("i%d", k), Body: fmt.Sprintf("b%d", k),
+	q := reqIn{Op: ops[r.Intn(4)], ID: fmt.Sprintf("i%d", k), Body: fmt.Sprintf("b%d", k),
 		Ctype: med[r.Intn(2)], Accept: med[r.Intn(2)], Cs: "-", Cu: "-"}
 	users := []string{"u1", "u2", "u3"}
 	switch q.Op {
-	case "opA":
+	case "opA", "opD":
 		q.Cs, q.Cu = "key", users[r.Intn(3)]
 	case "opC":
 		q.Cs, q.Cu = []string{"key", "tok"}[r.Intn(2)], users[r.Intn(3)]
@@ -285,7 +291,7 @@ func execHist(c *drv.Ctx, d M) bool {
 			rt, r2, found := b.ctx.RouteInfo(req)
 			next = r2
 			if found {
-				ret = []string{rt.PathPattern, rt.Params.Get("id")}
+				ret = []string{rt.PathPattern, dash(rt.Params.Get("id"))}
 			} else {
 				ret = []string{"notfound"}
 			}
@@ -333,7 +339,7 @@ func execHist(c *drv.Ctx, d M) bool {
 				ret = []string{"invalid"}
 			} else {
 				m, _ := bound.(map[string]interface{})
-				id, _ := m["id"].(string)
+				id := idOf(m)
 				body := "-"
 				if bv, ok := m["body"]; ok {
 					body = bodyTag(bv)
